@@ -528,6 +528,11 @@ class Shadow(object):
                     n = 0
                     for did, d in self.conns.items():
                         if chan in d.wants and d.open and d.clean and not d.gone:
+                            if getattr(d, 'wfault', False):
+                                # its transport refuses the write: nothing arrives, the broker drops it; it stays
+                                # subscribed (and counted) until then
+                                d.wfault_hit = True
+                                continue
                             exp['pubs'].setdefault(did, []).append((frame, required, (cid, chan)))
                             n += 1
                         elif chan in d.wants_lenient and d.open and not d.gone:
@@ -600,7 +605,6 @@ class Shadow(object):
             # from now on nothing can be delivered to this connection and the broker may drop it; everybody else
             # is owed everything as before
             c = self.conns[ev[1]]
-            c.clean = False
             c.wfault = True
             self.flags.add('write-fault')
         elif k == 'setrow':
@@ -1589,6 +1593,15 @@ def replay(script, drv):
     res = Result('broker')
     if script.get('section') == 'nonce-variety':
         nonce_variety(res)
+        return res
+    if any(e[0] == 'wfault' for e in script.get('events', [])):
+        # which subscribers come AFTER the faulty one in `set(...)` iteration depends on object addresses: the same
+        # history may or may not expose a fan-out that stops at the fault; try a few fresh brokers
+        for _ in range(8):
+            res = Result('broker')
+            run_script(script, drv, res)
+            if res.violations:
+                break
         return res
     run_script(script, drv, res)
     return res
